@@ -396,12 +396,18 @@ def wide_inputs():
     out.append(("CoseRecipient", b"\x84\x40\xa0\xf6" + arr(m) + rec * m))
     out.append(("Header", mp(1) + b"\x07" + arr(m) + sig * m))
     out.append(("Header", mp(1) + b"\x02" + arr(n) + b"\x01" * n))
-    k = 30000
-    out.append(("Header", mp(k) + b"".join(b"\x19" + (1000 + i).to_bytes(2, "big") + b"\x00" for i in range(k))))
-    out.append(("CoseKey", mp(k + 1) + b"\x01\x04" + b"".join(b"\x39" + (1000 + i).to_bytes(2, "big") + b"\x00" for i in range(k))))
-    out.append(("ClaimsSet", mp(k) + b"".join(b"\x64" + ("%04x" % i).encode() + b"\x00" for i in range(k))))
+    k = 100000       # pairwise-distinct labels: a duplicate check that is quadratic in the entries costs seconds here
+    i4 = lambda mt, i: bytes([mt * 32 + 26]) + (100000 + i).to_bytes(4, "big")
+    out.append(("Header", mp(k) + b"".join(i4(0, i) + b"\x00" for i in range(k))))
+    out.append(("Header", mp(k) + b"".join(b"\x66" + ("%06x" % i).encode() + b"\x00" for i in range(k))))
+    out.append(("CoseSign1", b"\x84" + (lambda h: head(2, len(h)) + h)(mp(k) + b"".join(i4(0, i) + b"\x00" for i in range(k))) + b"\xa0\xf6\x40"))
+    out.append(("CoseKey", mp(k + 1) + b"\x01\x04" + b"".join(i4(1, i) + b"\x00" for i in range(k))))
+    out.append(("CoseKey", mp(k + 1) + b"\x01\x04" + b"".join(b"\x66" + ("%06x" % i).encode() + b"\x00" for i in range(k))))
+    out.append(("ClaimsSet", mp(k) + b"".join(b"\x66" + ("%06x" % i).encode() + b"\x00" for i in range(k))))
+    out.append(("ClaimsSet", mp(k) + b"".join(i4(1, i) + b"\x00" for i in range(k))))
     out.append(("CoseKeySet", arr(m) + b"\xa1\x01\x04" * m))
-    out.append(("CoseKey", mp(2) + b"\x01\x04\x04" + arr(k) + b"".join(b"\x64" + ("%04x" % i).encode() for i in range(k))))
+    out.append(("CoseKey", mp(2) + b"\x01\x04\x04" + arr(k) + b"".join(b"\x66" + ("%06x" % i).encode() for i in range(k))))
+    out.append(("Header", mp(2) + b"\x02" + arr(k) + b"".join(b"\x66" + ("%06x" % i).encode() for i in range(k)) + b"\x18\x64\x00"))
     # deep AND branching: recipients nested 60 deep with 1..5 entries per level, the deep entry first or last
     small = b"\x83\x40\xa0\xf6"
     for fan in (1, 2, 3, 4, 5):
